@@ -661,6 +661,10 @@ fn main() {
             }
             rep.violations.extend(st.violations);
             rep.add_part(st.part);
+            let d = vx_core::DfsConfig::new("timing-identical-datagrams", 0);
+            let st = vx_core::explore_dfs(&d, rules::identical_scenario);
+            rep.violations.extend(st.violations);
+            rep.add_part(st.part);
             let d = vx_core::DfsConfig::new("lo-fixture", 0);
             let st = vx_core::explore_dfs(&d, rules::lo_scenario);
             rep.violations.extend(st.violations);
